@@ -23,7 +23,7 @@ static const char *RUN2 =
 "  -lengths 0.1\n  -stagnant 1 6.8e-6 0.3 0.1\n  -multi_d true 1e-9 0.3 0.05 1.0\n  -implicit true 1\n  -punch_cells 1-5\n  -punch_frequency 3\n"
 "END\n";
 
-static double inventory(IPhreeqc &p, const char *head)
+static double inventory(IPhreeqc &p, const char *head, bool first = false)
 {
 	int col = -1;
 	VAR v; VarInit(&v);
@@ -32,12 +32,12 @@ static double inventory(IPhreeqc &p, const char *head)
 	for (int j = 0; j < p.GetSelectedOutputColumnCount(); j++) { p.GetSelectedOutputValue(0, j, &v); if (v.type == TT_STRING && std::string(v.sVal) == "cell") ccol = j; VarClear(&v); }
 	double sum = 0; 
 	// last block of rows = last shift: take the last row seen for every cell 1,2,4,5
-	double last[8] = {0,0,0,0,0,0,0,0};
+	double last[8] = {0,0,0,0,0,0,0,0}; bool seen[8] = {false,false,false,false,false,false,false,false};
 	for (int i = 1; i < p.GetSelectedOutputRowCount(); i++)
 	{
 		p.GetSelectedOutputValue(i, ccol, &v); int c = (int)(v.type == TT_DOUBLE ? v.dVal : v.lVal); VarClear(&v);
 		p.GetSelectedOutputValue(i, col, &v); double x = (v.type == TT_DOUBLE ? v.dVal : 0); VarClear(&v);
-		if (c >= 0 && c < 8) last[c] = x;
+		if (c >= 0 && c < 8 && !(first && seen[c])) { last[c] = x; seen[c] = true; }
 	}
 	return last[1] + last[2] + last[4] + last[5];
 }
@@ -46,7 +46,7 @@ static const char *SETUP2 =
 "SOLUTION 0-3\n  Na 1\n  Cl 1\n"
 "SOLUTION 4-5\n  Na 0.1\n  Cl 0.1\n"
 "END\n";
-static int run2(bool with_first_run, double *Cl)
+static int run2(bool with_first_run, double *Cl, double *Cl_start)
 {
 	IPhreeqc p;
 	if (p.LoadDatabase("/repo/database/phreeqc.dat")) { printf("%s\n", p.GetErrorString()); return 1; }
@@ -56,6 +56,7 @@ static int run2(bool with_first_run, double *Cl)
 	if (p.RunString(in.c_str())) { printf("%s\n", p.GetErrorString()); return 1; }
 	p.SetCurrentSelectedOutputUserNumber(1);
 	*Cl = inventory(p, "Cl_mol");
+	*Cl_start = inventory(p, "Cl_mol", true);       // rows of transport step 0 of the implicit run
 	return 0;
 }
 
@@ -82,12 +83,13 @@ int main()
 	printf("same run after an explicit stagnant run  : K = %.6e  Br = %.6e\n", K1, B1);
 	bool bad = std::fabs(K1 - 1e-2) > 1e-9 * 1e-2 * 1e3 || std::fabs(K1 - K0) > 1e-8;
 	printf(bad ? "FAIL: potassium/bromide defined for the immobile cells before the second run is lost (stale scratch solutions -2-k copied over cells k)\n" : "ok\n");
-	double C0, C1;
-	if (run2(false, &C0) || run2(true, &C1)) return 2;
-	printf("\nno redefinition in between; closed column, chloride inventory of cells 1,2,4,5 must stay 2.2e-3 mol\n");
-	printf("implicit run alone                      : Cl = %.6e\n", C0);
-	printf("implicit run after an explicit run       : Cl = %.6e\n", C1);
-	bool bad2 = std::fabs(C1 - 2.2e-3) > 1e-9 * 2.2e-3 * 1e3;
+	double C0, C1, S0, S1;
+	if (run2(false, &C0, &S0) || run2(true, &C1, &S1)) return 2;
+	printf("\nno redefinition in between; closed column: the chloride inventory of cells 1,2,4,5 must not change DURING the implicit run\n");
+	printf("(the explicit first-order exchange conserves the porosity-weighted inventory, so the start value after it is not 2.2e-3)\n");
+	printf("implicit run alone                 : start %.6e  end %.6e\n", S0, C0);
+	printf("implicit run after an explicit run  : start %.6e  end %.6e\n", S1, C1);
+	bool bad2 = std::fabs(C1 - S1) > 1e-6 * S1 || std::fabs(C0 - S0) > 1e-6 * S0;
 	printf(bad2 ? "FAIL: chloride inventory changes during the second (implicit) run\n" : "ok\n");
 	return (bad || bad2) ? 1 : 0;
 }
